@@ -16,6 +16,7 @@ import socket
 
 from . import common as C
 from . import c05 as H5
+from . import lan_pub as P
 
 MODEL_MAP = [
     {'python': 'pyipmi/interfaces/rmcp.py:Rmcp.establish_session', 'coq': 'Model.Session.establish'},
@@ -295,11 +296,11 @@ def run_scenario(scn):
         with H5.md5_recorded() as rec:
             itf = rmcp.Rmcp(max_retries=cfg['retries'], keep_alive_interval=cfg['keep'])
             sock = ScriptSock()
-            itf._sock = sock
+            P.give_socket(itf, sock)            # through the public open() with the socket factory substituted
             s = Session()
             s.set_session_type_rmcp('bmc', 623)
             s.set_auth_type_user(cfg['user'], H5.pw_value(cfg['pw']))
-            s._priv_level = cfg['priv']
+            s.set_priv_level({2: 'user', 3: 'operator', 4: 'administrator'}[cfg['priv']])
             s.interface = itf
             outs, segs = [], []
             for k, seg in enumerate(scn['segments']):
@@ -313,7 +314,8 @@ def run_scenario(scn):
                             itf.establish_session(s)
                             r = (0, b'')
                         elif op[0] == 'req':
-                            rx = itf.send_and_receive_raw(itf.host_target, op[2], op[1],
+                            import pyipmi
+                            rx = itf.send_and_receive_raw(pyipmi.Target(0x20), op[2], op[1],
                                                           bytes([op[3]]) + bytes.fromhex(op[4]))
                             r = (0, bytes(rx))
                         else:
@@ -325,10 +327,9 @@ def run_scenario(scn):
                 outs += souts
                 segs.append({'bmc': bmc, 'outs': souts})
             final = [s.auth_type if s.auth_type is not None else 999, s.sid, s.sequence_number, int(bool(s.activated)),
-                     int(itf._session is not None), itf.seq_number, itf.next_sequence_number,
-                     int(itf._stop_keep_alive is not None)]
-            if itf._session is not None and itf._session is not s:
-                final[4] = 7
+                     P.peek(itf, '_session', lambda v: 0 if v is None else 1 if v is s else 7),
+                     getattr(itf, 'seq_number', P.WILD), getattr(itf, 'next_sequence_number', P.WILD),
+                     int(keep['started'] > 0)]      # a keep-alive was started (call_repeatedly is substituted)
     finally:
         rmcp.random, rmcp.call_repeatedly = saved
     return {'log': sock.log, 'outs': outs, 'segs': segs, 'final': final, 'md5': rec.calls, 'keep': keep}
@@ -667,7 +668,7 @@ def decode_cases(rng, q, add):
             return 0, onerr(rsp.completion_code)
         return 0, [0] + fields(rsp)
     specs = [
-        (0x38, 9, 'chk_dec_caps', lambda r: [int(r.support._value)], lambda cc: [cc, 0]),
+        (0x38, 9, 'chk_dec_caps', lambda r: [int(r.support)], lambda cc: [cc, 0]),
         (0x39, 21, 'chk_dec_challenge', lambda r: [r.temporary_session_id] + list(r.challenge_string), lambda cc: [cc, 0]),
         (0x3a, 11, 'chk_dec_activate', lambda r: [r.session_id, r.initial_inbound_sequence_number], lambda cc: [cc, 0, 0]),
         (0x3b, 2, 'chk_dec_cc 1%nat', lambda r: [], lambda cc: [cc]),
@@ -695,8 +696,17 @@ def run(ctx):
 
     ndg = 0
     done = []
+    scenario_errors = []
     for kind, scn in scenarios(rng, q):
-        rec = run_scenario(scn)
+        try:
+            rec = run_scenario(scn)
+        except Exception as e:  # noqa  - an exception of the implementation that reached the harness outside an
+            import traceback     # operation: an observation, the run goes on
+            scenario_errors.append({'kind': kind, 'exception': '%s: %s' % (type(e).__name__, e),
+                                    'traceback': traceback.format_exc()[-1200:]})
+            if len(scenario_errors) <= 3:
+                print('NOTE property=C06 scenario %r could not be driven: %s: %s' % (kind, type(e).__name__, e))
+            continue
         ndg += len(rec['log'])
         for t in terms_for(scn, rec):
             add(t, (kind, scn))
@@ -729,4 +739,6 @@ def run(ctx):
                 'distinct = distinct scenarios, all non-trivial')
     res.samples = [{'term': terms[i][:400], 'case': meta[i]} for i in (0, len(terms) // 2, len(terms) - 1)]
     res.oracle_failures = list(fails.values())
+    res.extra['scenario_errors'] = scenario_errors[:10]
+    res.extra['library_access'] = dict(P.notes)
     return res
